@@ -36,6 +36,16 @@ def policyActor (r : TEReq) : String :=
   if r.exchangeActor != "" then r.exchangeActor
   else if r.scopes.any (fun s => Go.hasPrefix s "custom_scope:impersonate:") then r.exchangeSubject else ""
 
+/-- deep5: Lean twin of the exchange storage's policy for the `act` member (c15store.go `c15PolicyAct`; the table is the monitor's
+    `C15.actValue`), applied to what the framework handed the hook: the request's resolved actor / exchange subject / client -/
+def policyAct (l : Line) (r : TEReq) : String :=
+  _root_.C15.actValue (if has l "actpol" then str l "actpol" else "flat") (policyActor r) r.exchangeSubject r.clientID
+
+/-- the `act` member of the marshalled token: the registered `Actor` field (a request's own `GetActor()`, were there one) is decoded
+    OVER the custom claims (`mergeAndMarshalClaims`: registered wins, C12) - else the custom claims' `act` -/
+def wireAct (actor : String) (c : TEClaims) : String :=
+  if actor != "" then _root_.C15.actValue "flat" actor "" "" else ((c.find? (·.1 == "act")).map (·.2)).getD ""
+
 def claim (c : TEClaims) (k : String) : String := ((c.find? (·.1 == k)).map (·.2)).getD ""
 
 /-- the provider of one line: registry as in C05, every library / storage answer from the line's oracle entries -/
@@ -67,15 +77,15 @@ def providerOf (l : Line) : TEProvider :=
         ValidateTokenExchangeRequest := policy l,
         -- the three hooks that can supply the private claims of a JWT access token mark their answer; the exchange hook decides the actor
         is_CanGetPrivateClaimsFromRequest := bool l "cap.pc",
-        GetPrivateClaimsFromTokenExchangeRequest := fun a => .ok [("src", "exchange"), ("act.sub", policyActor a.req)],
+        GetPrivateClaimsFromTokenExchangeRequest := fun a => .ok [("src", "exchange"), ("act", policyAct l a.req)],
         GetPrivateClaimsFromRequest := fun _ _ => .ok [("src", "request")],
         GetPrivateClaimsFromScopes := fun _ _ _ => .ok [("src", "scopes")],
-        SigningKey := .ok { signAT := fun c => .ok s!"jwt({c.Subject}|{claim c.Claims "act.sub"}|{claim c.Claims "src"})",
-                            signID := fun c => .ok s!"id({c.Subject}|{claim c.UserInfo.Claims "act.sub"}|{claim c.UserInfo.Claims "src"})" },
+        SigningKey := .ok { signAT := fun c => .ok s!"jwt({c.Subject}|{wireAct c.Actor c.Claims}|{claim c.Claims "src"})",
+                            signID := fun c => .ok s!"id({c.Subject}|{wireAct c.Actor c.UserInfo.Claims}|{claim c.UserInfo.Claims "src"})" },
         -- likewise the hooks that can fill the userinfo of an ID token (the reference storage sets the subject for the scope openid)
         is_CanSetUserinfoFromRequest := bool l "cap.ui",
         SetUserinfoFromTokenExchangeRequest := fun u a => .ok { u with Subject := if a.req.scopes.contains "openid" then a.req.subject else u.Subject,
-                                                                       Claims := [("src", "exchange"), ("act.sub", policyActor a.req)] },
+                                                                       Claims := [("src", "exchange"), ("act", policyAct l a.req)] },
         SetUserinfoFromRequest := fun u _ _ => .ok { u with Claims := [("src", "request")] },
         ClientAccessTokenType := fun c => if c.id == "px" && bool l "px.jwt" then TEConst.AccessTokenTypeJWT else 0 } }
 
